@@ -1073,6 +1073,22 @@ class RemoteEval(_CHarness):
               server._request_shutdown()
           self.rows.append((f'call{i}@shutdown{p["at"]}', local(calls[i]),
                             remote(client, expr)))
+      elif part == 'restart':
+        # the same server object is stopped and started again (upstream:
+        # test_shutdown_and_restart): afterwards it evaluates like a fresh one
+        def exprs(tag):
+          return [(f'add@{tag}', lf.trace(fx.add)(1, 2)),
+                  (f'raiser@{tag}', lf.trace(fx.raiser)(tag)),
+                  (f'Box(2)(3)@{tag}', lf.trace(fx.Box)(2)(3)),
+                  (f'cached-mul@{tag}', lf.trace(fx.mul)(2, 3, cache_result_=True)),
+                  (f'item-error@{tag}', lf.trace(fx.make_list)(2)[5])]
+        for gen in range(p.get('at', 1) + 1):
+          if gen:
+            server.stop().join()
+            server.start()
+            client.wait_until_alive()
+          for name, expr in exprs(f'gen{gen}'):
+            self.rows.append((name, local(expr), remote(client, expr)))
       elif part == 'two-clients':
         c2 = m.courier_utils.CourierClient('w0', call_timeout=31)
         c2.wait_until_alive()
